@@ -20,8 +20,11 @@ Definition num_separated (l1 l2 : list N) : Prop :=
 Theorem C18_refl : forall v, val_ok v = true -> fun_free v = true -> num_refl (nums_of v) -> val_eqb ops v v = true.
 Proof. exact (C18Proofs.eq_refl ops). Qed.
 
-Theorem C18_sym : forall x y, val_ok x = true -> val_ok y = true -> num_sym -> val_eqb ops x y = val_eqb ops y x.
-Proof. exact (C18Proofs.eq_sym ops). Qed.
+(* funs_wf: every function value inside carries a well-formed type (function values are outside the property's
+   quantifier; they are compared by address in the code) *)
+Theorem C18_sym : forall x y, val_ok x = true -> val_ok y = true -> funs_wf x = true -> funs_wf y = true -> num_sym ->
+  val_eqb ops x y = val_eqb ops y x.
+Proof. exact (C18Proofs.eq_sym_partial ops). Qed.
 
 (* strconv.Quote is injective: distinct strings never share a rendering or a map key *)
 Theorem C18_quote_injective : forall a b, quote a = quote b -> a = b.
@@ -31,21 +34,30 @@ Proof. exact C18Proofs.quote_injective. Qed.
 Theorem C18_eq_key : forall x y kx ky,
   is_primitive (val_type x) = true -> ty_eqb (val_type x) (val_type y) = true ->
   num_separated (nums_of x) (nums_of y) ->
+  times_separated x y = true ->     (* for two instants: equal printed form implies the same instant *)
   key_of ops x = ([], OVal kx) -> key_of ops y = ([], OVal ky) ->
   (val_eqb ops x y = true <-> kx = ky).
-Proof. exact (C18Proofs.eq_key ops). Qed.
+Proof. exact (C18Proofs.eq_key_partial ops). Qed.
+
+Theorem C18_eq_key_notime : forall x y kx ky,
+  is_primitive (val_type x) = true -> ty_eqb (val_type x) (val_type y) = true ->
+  num_separated (nums_of x) (nums_of y) -> val_type x <> TTime ->
+  key_of ops x = ([], OVal kx) -> key_of ops y = ([], OVal ky) ->
+  (val_eqb ops x y = true <-> kx = ky).
+Proof. exact (C18Proofs.eq_key_notime ops). Qed.
 
 (* equal values render to the same text ... *)
 Theorem C18_eq_render : forall x y,
   val_ok x = true -> val_ok y = true -> fun_free x = true ->
+  maybe_fn_free x = true ->      (* no function type inside the type of an optional (its text shows function names) *)
   num_separated (nums_of x) (nums_of y) ->
   val_eqb ops x y = true -> render ops x = render ops y.
-Proof. exact (C18Proofs.eq_render ops). Qed.
+Proof. exact (C18Proofs.eq_render_partial ops). Qed.
 
 (* ... and rendering is canonical: it does not depend on the order in which object fields or map entries were supplied *)
 Theorem C18_canonical : forall x y,
-  val_ok x = true -> val_ok y = true -> same_contents x y -> render ops x = render ops y.
-Proof. exact (C18Proofs.render_canonical ops). Qed.
+  val_ok x = true -> val_ok y = true -> maybe_fn_free x = true -> same_contents x y -> render ops x = render ops y.
+Proof. exact (C18Proofs.render_canonical_partial ops). Qed.
 
 (* distinct numbers - however large - never render alike or collide as map keys, given that the two printers
    (integers, shortest floats) are injective and never produce each other's output *)
@@ -62,6 +74,7 @@ Print Assumptions C18_refl.
 Print Assumptions C18_sym.
 Print Assumptions C18_quote_injective.
 Print Assumptions C18_eq_key.
+Print Assumptions C18_eq_key_notime.
 Print Assumptions C18_eq_render.
 Print Assumptions C18_canonical.
 Print Assumptions C18_big_distinct.
